@@ -123,7 +123,7 @@ fn canon(tcx: TyCtxt<'_>, did: DefId) -> String {
                 match d.data.get_opt_name() {
                     Some(n) if d.disambiguator == 0 => n.to_string(),
                     Some(n) => format!("{}#{}", n, d.disambiguator),
-                    None => format!("{{{}#{}}}", d.data, d.disambiguator),
+                    None => format!("{{{}#{}}}", d.data.to_string().trim_matches(|c| c == '{' || c == '}'), d.disambiguator),
                 }
             }
         };
@@ -322,6 +322,7 @@ fn dump_const<'tcx>(tcx: TyCtxt<'tcx>, ldid: LocalDefId, out: &mut String) {
         return;
     }
     let t = tcx.type_of(did).instantiate_identity().skip_norm_wip();
+    let t = tcx.try_normalize_erasing_regions(TypingEnv::fully_monomorphized(), rustc_middle::ty::Unnormalized::new_wip(t)).unwrap_or(t);
     let val = match tcx.const_eval_poly(did) {
         Ok(v) => v,
         Err(_) => return,
